@@ -22,10 +22,10 @@ def gated(seed=0, n=200, **kw):
     the gated domain itself; reference model in Python"""
     import py4hw
     rnd = random.Random(seed); evals = 0
-    for variant in ('input-enable', 'self-enable', 'nested'):
+    for variant in ('input-enable', 'self-enable', 'nested', 'wide-enable', 'enable-from-other-domain'):
         s = q(py4hw.HWSystem)
         w = s.wire
-        d = w('d', 8); en = w('en'); q1 = w('q1', 8); q2 = w('q2', 8); free = w('free', 8); t = w('t')
+        d = w('d', 8); en = w('en', 3 if variant == 'wide-enable' else 1); q1 = w('q1', 8); q2 = w('q2', 8); free = w('free', 8); t = w('t')
         blk = q(py4hw.Logic, s, 'gated')
         inner = blk
         if variant == 'nested':
@@ -34,13 +34,16 @@ def gated(seed=0, n=200, **kw):
         if variant == 'self-enable':
             # enable = NOT(bit 0 of q1): the domain disables itself after loading an odd value
             b0 = w('b0'); q(py4hw.Bit, s, 'b0', q1, 0, b0); enw = w('enw'); q(py4hw.Not, s, 'nb0', b0, enw)
+        if variant == 'enable-from-other-domain':
+            # the enable is the output of a register of the (ungated) system domain, changing at the very edge it gates
+            enw = w('enr'); q(py4hw.Reg, s, 'enreg', en, enw)
         blk.clockDriver = py4hw.ClockDriver('gclk', base=s.clockDriver, enable=enw)
         q(py4hw.Reg, inner, 'r1', d, q1); q(py4hw.Reg, inner, 'r2', q1, q2)
         q(py4hw.Reg, s, 'rfree', d, free)          # ungated domain
         sim = q(s.getSimulator)
         m1 = m2 = mf = 0
         for step in range(n):
-            dv = rnd.getrandbits(8); ev = rnd.getrandbits(1)
+            dv = rnd.getrandbits(8); ev = rnd.getrandbits(3 if variant == 'wide-enable' else 1)
             d.put(dv); en.put(ev)
             q(sim.propagateAll)
             enabled = enw.get() != 0
